@@ -70,7 +70,7 @@ func c19Gen(r *gen.Rng, tier string, idx int) interface{} {
 		c.P.N = max(c.P.MaxVar(), 1)
 		if r.Chance(3, 4) {
 			c.P.HasCost = true
-			c.P.CostLits, c.P.CostW = gen.RandomCost(r, c.P.N, 5, false, false)
+			c.P.CostLits, c.P.CostW = gen.RandomCost(r, c.P.N, 5, r.Chance(1, 2), false) // negative coefficients: the optimum can be below 0
 		}
 		c.P.N = max(c.P.MaxVar(), 1)
 		c.Flags = [][]string{nil, nil, {"-cp"}, {"-verbose"}, {"-count"}}[r.Intn(5)]
